@@ -1,9 +1,11 @@
 """C15 — simulation rules are applied exactly as written (part 1: rule text and rule list;
 part 2, the dynamic effect of rules, is added by lib/c15dyn once the simulation model exists)."""
 import json
+import re
 import random
 
 import common as C
+import simlib
 
 TIMEC = ["TAbs", "TNone", "TRel", "TOnValid", "TOnRecv", "TOnExit"]
 ACTION = ["ASet", "AGet", "AShow", "AConfig"]
@@ -45,6 +47,85 @@ def op_term(o):
 def rule_term(r):
     return "(mkRule %s %s %s %s %s %s)" % (TIMEC[r["timec"]], C.cq_N(r["tick"]), ACTION[r["action"]], C.cq_string(r["object"]),
                                            C.cq_string(r["extra"]), C.cq_bool(r["suspended"]))
+
+
+IO_RE = re.compile(r"([io])(\d+): ([01]+) \(v:(true|false) r:(true|false)\)")
+
+
+def dynamic_part(res, rnd, a):
+    """set rules during a real simulation (cmd/bondmachine -sim with a simbox file) against the rules' stated meaning applied by
+    hand to the VM (harness sim, 'rules'): exactly the named object gets exactly the stated value at exactly the stated tick, an
+    external input also gets its valid flag, a suspended rule changes nothing"""
+    import os, shutil, subprocess, tempfile
+    import c07
+    c07.build_tools()
+    n = 8 if a.tier == "quick" else 80
+    viol = []
+    done = 0
+    work = tempfile.mkdtemp(prefix="verif-c15-")
+    try:
+        for k in range(n):
+            N = rnd.choice([1, 2, 3])
+            rsize = 8
+            sync = rnd.random() < 0.5
+            prog = []
+            for i in range(N):
+                prog.append(("i2rw r%d i%d" if sync else "i2r r%d i%d") % (i, i))
+            prog += ["add r0 r3", "r2o r0 o0"]
+            if N > 1:
+                prog += ["r2o r1 o1"]
+            prog.append("j 0")
+            M = 2 if N > 1 else 1
+            ops = sorted(set(l.split()[0] for l in prog) | {"nop"})
+            spec = {"rsize": rsize, "procs": [{"arch": {"R": 2, "N": N, "M": M, "L": 0, "O": 4, "ops": ops, "mode": "ha", "rsize": rsize}, "prog": prog}],
+                    "inputs": N, "outputs": M, "bonds": [["p0i%d" % i, "i%d" % i] for i in range(N)] + [["o%d" % o, "p0o%d" % o] for o in range(M)]}
+            ticks = 14
+            rules = []
+            for _ in range(rnd.randint(1, 5)):
+                obj = rnd.choice(["i%d" % rnd.randrange(N), "p0r%d" % rnd.randrange(4)])
+                rules.append({"tick": rnd.randrange(ticks - 2), "obj": obj, "val": rnd.randrange(1, 200), "suspended": rnd.random() < 0.25})
+            # one (tick, object) pair at most: two rules for the same object at the same tick have no stated order
+            seen, uniq = set(), []
+            for r in rules:
+                if (r["tick"], r["obj"]) not in seen:
+                    seen.add((r["tick"], r["obj"]))
+                    uniq.append(r)
+            rules = uniq
+            ref = simlib.run_sims([{"bm": spec, "env": [], "ticks": ticks, "dump": "ext", "rules": rules}])[0]
+            saved = C.jsonl(C.sh([C.BMH, "c11", "save"], input=json.dumps({"bm": spec}) + "\n").stdout)[0]
+            d = os.path.join(work, "c%d" % k)
+            os.mkdir(d)
+            open(os.path.join(d, "bm.json"), "w").write(saved["json"])
+            sb = {"Rules": [{"Timec": 0, "Tick": r["tick"], "Action": 0, "Object": r["obj"], "Extra": str(r["val"]), "Suspended": r["suspended"]} for r in rules] +
+                           [{"Timec": 1, "Tick": 0, "Action": 3, "Object": "show_io_post", "Extra": "", "Suspended": False}]}
+            open(os.path.join(d, "sb.json"), "w").write(json.dumps(sb))
+            p = subprocess.run([c07.tool("bondmachine"), "-bondmachine-file", "bm.json", "-sim", "-simbox-file", "sb.json", "-sim-interactions", str(ticks)],
+                               cwd=d, env=C.GOENV, stdout=subprocess.PIPE, stderr=subprocess.STDOUT, text=True, timeout=120)
+            lines = [l for l in p.stdout.splitlines() if "Post-compute IO" in l]
+            meta = {"machine": spec, "rules": rules}
+            res.count_case(meta, nontrivial=True)
+            if ref.get("err") or len(lines) < ticks:
+                viol.append(("the simulation with rules %s cannot be run: %s" % (rules, ref.get("err") or p.stdout[-300:]), meta))
+                continue
+            done += 1
+            for t in range(ticks):
+                got = {}
+                for kind, idx, bits, v, r in IO_RE.findall(lines[t]):
+                    got[kind + idx] = (int(bits, 2), v == "true", r == "true")
+                want = {}
+                for i in range(N):
+                    want["i%d" % i] = (ref["ticks"][t]["in"][i], ref["ticks"][t]["inv"][i], ref["ticks"][t]["inr"][i])
+                for o in range(M):
+                    want["o%d" % o] = (ref["ticks"][t]["out"][o], ref["ticks"][t]["outv"][o], ref["ticks"][t]["outr"][o])
+                if got != want:
+                    bad = sorted(x for x in want if got.get(x) != want[x])
+                    viol.append(("with rules %s the simulation shows %s = %s at tick %d; applying the rules as written gives %s"
+                                 % ([("suspended " if r["suspended"] else "") + "absolute:%d:set:%s:%d" % (r["tick"], r["obj"], r["val"]) for r in rules],
+                                    bad[0], got.get(bad[0]), t, want[bad[0]]), meta))
+                    break
+    finally:
+        shutil.rmtree(work, ignore_errors=True)
+    return viol, done
 
 
 def run(res, a):
@@ -105,7 +186,10 @@ def run(res, a):
             if fails:
                 mism.append((out[k]["ops"], fails))
             k += 1
+    dyn_viol, dyn_n = dynamic_part(res, rnd, a)
+    viol += dyn_viol
     cov = res.coverage
+    cov["rules_applied_in_simulation_compared"] = dyn_n
     cov["rule"] = ("rule-list histories: add (every rule form x object/extra/tick pools incl. boundary ticks, signs, malformed text), "
                    "del/suspend/reactivate with in-range, negative and too-large indices; JSON save/load of the final list; "
                    "non-trivial = at least two accepted rules; distinct by hash")
